@@ -75,7 +75,7 @@ def mandatory_bins(tier):
     b += ["block_key%d" % k for k in (16, 24, 32)]
     b += ["mode_" + m for m in ("ecb", "cbc", "cfb", "ofb", "ctr")]
     b += ["cfb_seg%d" % s for s in range(1, 17)]
-    b += ["ctr_wraparound", "ctr_carry", "all_compositions", "empty_chunk", "feeder_pkcs7", "feeder_none", "stream_bs1", "stream_bs15", "stream_bs16", "stream_bs17", "stream_bs8192",
+    b += ["ctr_wraparound", "ctr_carry", "all_compositions", "empty_chunk", "feeder_pkcs7", "feeder_none", "stream_bs1", "stream_bs15", "stream_bs16", "stream_bs17", "stream_bs8192", "stream_with_short_reads",
           "adapter_history", "adapter_shared_key_iv", "adapter_trailing_zero_plaintext", "adapter_len_mod16_0", "adapter_len_mod16_1", "adapter_len_mod16_15", "adapter_explicit_iv", "adapter_default_iv", "global_state_unchanged"]
     return b
 
@@ -127,6 +127,25 @@ def cut(data, parts):
         p += c
     assert p == len(data)
     return out
+
+
+class ShortReadStream:
+    """a readable stream that - as raw streams, pipes and sockets may - returns fewer bytes than requested before EOF"""
+
+    def __init__(self, data, rng):
+        self.data = data
+        self.pos = 0
+        self.rng = rng
+
+    def read(self, n=-1):
+        left = len(self.data) - self.pos
+        if left == 0:
+            return b""
+        want = left if n is None or n < 0 else min(n, left)
+        k = self.rng.randrange(1, want + 1)
+        out = self.data[self.pos : self.pos + k]
+        self.pos += k
+        return out
 
 
 def make_mode(ns, mode, key, iv, seg, ctr0):
@@ -402,11 +421,14 @@ def run_shard(spec, ctx):
                 bs = (1, 15, 16, 17, 8192)[(i // 4) % 5]
                 ctx.bin("stream_bs%d" % bs)
                 try:
+                    short = (i // 20) % 2 == 1
+                    if short:
+                        ctx.bin("stream_with_short_reads")
                     out = io.BytesIO()
-                    ns.blockfeeder.encrypt_stream(make_mode(ns, mode, key, iv, seg, ctr0), io.BytesIO(data), out, block_size=bs, padding=padding)
+                    ns.blockfeeder.encrypt_stream(make_mode(ns, mode, key, iv, seg, ctr0), ShortReadStream(data, rng) if short else io.BytesIO(data), out, block_size=bs, padding=padding)
                     ct = out.getvalue()
                     out2 = io.BytesIO()
-                    ns.blockfeeder.decrypt_stream(make_mode(ns, mode, key, iv, seg, ctr0), io.BytesIO(ct), out2, block_size=bs, padding=padding)
+                    ns.blockfeeder.decrypt_stream(make_mode(ns, mode, key, iv, seg, ctr0), ShortReadStream(ct, rng) if short else io.BytesIO(ct), out2, block_size=bs, padding=padding)
                     ctx.mon("stream_helper", 2)
                     e = ns.blockfeeder.Encrypter(make_mode(ns, mode, key, iv, seg, ctr0), padding=padding)
                     one = e.feed(data) + e.feed()
